@@ -15,8 +15,10 @@ LEVEL = ('decides the mechanisms the statement names: the core guard has a Drop 
          ' a usable root state. is_mutually_exclusive_with answers true only for two predicates on one'
          ' variable that no value satisfies together and negation is exact (A12/A13, decided on a '
          "small integer window); the no-learning resolver's flipped decision carries a reason that "
-         'covers every earlier decision level, evaluated with symbolic levels (A14). Does not decide '
-         'that a core is logically a core')
+         'covers every earlier decision level, evaluated with symbolic levels (A14). Also runs the '
+         'LIFE-CYCLE BUNDLE (…L<n>): the typestate rules over arbitrary API sequences of C10 (usable '
+         'root state after every call, inert posting in inconsistent states, entry guards, stored-'
+         'solution extent). Does not decide that a core is logically a core')
 TECHNIQUE = "static analysis: dominance / who-may-call / taint / typestate over rustc MIR"
 
 GUARD = "UnsatisfiableUnderAssumptions"
@@ -297,3 +299,5 @@ def run(ctx, led):
     run_rule(led, "A15", "semantic minimiser: every folding step maps the values a record stands for to exactly those satisfying the folded predicate (decided on all records of a 5-value window)", minimiser.steps_exact, ctx)
     run_rule(led, "A16", "semantic minimiser: the emitted predicates describe the record exactly relative to the root domain; holes leave the bounds before redundant holes are dropped", minimiser.emission_exact, ctx)
     run_rule(led, "A17", "the API forwards the caller's assumptions unchanged", a17, ctx)
+    from . import kernel as _kernel2
+    _kernel2.run_lifecycle(led, ctx, "A")
